@@ -30,7 +30,7 @@ Qed.
     order, and its log is: a's three resolvers and two fulfilments, then l's three resolvers and two
     fulfilments (the later promise first), then c's resolver and fulfilment *)
 Example ex_run :
-  exists r, run ex_sigma Mutation 5 ex_root = Done r /\
+  exists r, run (Some ex_sigma) Mutation 5 ex_root = Done r /\
     r_rounds r = 5%nat /\ length (r_proms r) = 5%nat /\ r_null r = false /\
     slot_keys (r_root r) = [Some [97]; Some [108]; Some [99]] /\
     r_events r =
@@ -45,14 +45,14 @@ Proof. eexists. split; [vm_compute; reflexivity|]. vm_compute. repeat split. Qed
 (** the same document as a query under the same schedule is not serial: c's promise is fulfilled
     first, a's resolvers run last *)
 Example ex_query_not_serial :
-  exists r, run ex_sigma Query 5 ex_root = Done r /\
+  exists r, run (Some ex_sigma) Query 5 ex_root = Done r /\
             strict_serial (map fst ex_root) (r_events r) = false.
 Proof. eexists. split; [vm_compute; reflexivity|]. vm_compute. reflexivity. Qed.
 
 (** the witness of the known finding meets the hypotheses of C11_mutation_serial_starts only:
     its log is serial for resolver starts but not strictly *)
 Example ex_abandon :
-  exists r, run (sigma_ranks [0; 1; 1]%nat) Mutation 4 wit_abandon = Done r /\
+  exists r, run (Some (sigma_ranks [0; 1; 1]%nat)) Mutation 4 wit_abandon = Done r /\
             weak_serial (map fst wit_abandon) (r_events r) = true /\
             strict_serial (map fst wit_abandon) (r_events r) = false /\
             existsb (fun pr => match p_st pr with PSent => true | _ => false end) (r_proms r) = true.
@@ -61,6 +61,30 @@ Proof. eexists. split; [vm_compute; reflexivity|]. vm_compute. repeat split. Qed
 (** a run that does not return: an (unfair) idle handler that never fulfils anything leaves the
     executor stuck in the wait for the first root field; the order theorems speak about its log too *)
 Example ex_stuck :
-  exists s, run (fun _ _ => []) Mutation 5 ex_root = Stuck s /\
-            log_of (run (fun _ _ => []) Mutation 5 ex_root) = [EStart [PKey [97]]].
+  exists s, run (Some (fun _ _ => [])) Mutation 5 ex_root = Stuck s /\
+            log_of (run (Some (fun _ _ => [])) Mutation 5 ex_root) = [EStart [PKey [97]]].
 Proof. eexists. split; vm_compute; reflexivity. Qed.
+
+(** the proposed drain step on the witness of the known finding: the abandoned promise a.y is
+    fulfilled before b starts; the log is strictly serial *)
+Example ex_drain :
+  exists r, run_gen true (Some (sigma_ranks [0; 1; 1]%nat)) Mutation 4 wit_abandon = Done r /\
+            strict_serial (map fst wit_abandon) (r_events r) = true /\
+            r_events r = [ EStart [PKey [97]]; EStart [PKey [97]; PKey [120]]; EStart [PKey [97]; PKey [121]];
+                           EFulfil [PKey [97]; PKey [120]]; EFulfil [PKey [97]; PKey [121]];
+                           EStart [PKey [98]]; EFulfil [PKey [98]] ].
+Proof. eexists. split; [vm_compute; reflexivity|]. vm_compute. repeat split. Qed.
+
+(** a request without idle handler: the first promise makes wait answer "No idle handler defined.",
+    the mutation stops there *)
+Example ex_no_idle_handler :
+  exists r, run None Mutation 5 ex_root = Done r /\ r_null r = true /\ r_events r = [EStart [PKey [97]]].
+Proof. eexists. split; [vm_compute; reflexivity|]. vm_compute. repeat split. Qed.
+
+(** __typename between two root fields: no resolver, no event, its slot is filled in order *)
+Example ex_typename :
+  exists r, run (Some ex_sigma) Mutation 5 [([97], FP (Some 0) false (Some (VLeaf 1))); ([116], FTypename);
+                                          ([98], FP None false (Some (VLeaf 2)))] = Done r /\
+            slot_keys (r_root r) = [Some [97]; Some [116]; Some [98]] /\
+            r_events r = [EStart [PKey [97]]; EFulfil [PKey [97]]; EStart [PKey [98]]].
+Proof. eexists. split; [vm_compute; reflexivity|]. vm_compute. repeat split. Qed.
